@@ -744,7 +744,7 @@ class Sim:
             self.violate("arg_mutated", cl, op, i_step, fkind, "the caller's argument object was modified by the call")
         if y is not None and fingerprint_arg(y) != y_fp:
             self.violate("arg_mutated", cl, op, i_step, fkind, "the caller's y object was modified by the call")
-        if res[2] is not None and len(self.returned) < 400:
+        if res[2] is not None and len(self.returned) < 400 and not st.get("scribble"):
             self.returned.append((i_step, cl.kind, op, res[2], res[1]))
 
         natural = None
@@ -782,6 +782,19 @@ class Sim:
             cl.prev_interrupted_output = bool(fired)
         if ds_id is not None and not self.ds_spec[ds_id].get("bad"):
             cl.last_ds = ds_id
+        if st.get("scribble") and res[0] == "ok" and res[2] is not None:
+            # the caller post-processes the returned object in place (it is theirs now);
+            # later calls must not see that
+            raw = res[2]
+            try:
+                if isinstance(raw, np.ndarray) and raw.dtype.kind == "f" and raw.flags.writeable:
+                    raw[...] = -7.25
+                    self.probe("result_scribbled")
+                elif isinstance(raw, pd.DataFrame) and len(raw) and all(dt.kind == "f" for dt in raw.dtypes):
+                    raw.iloc[:, :] = -7.25
+                    self.probe("result_scribbled")
+            except Exception:  # noqa: BLE001
+                pass
 
     def compare_either(self, cl, op, arg, cur, either, res, ev, i_step, fkind):
         """Output of a client whose training data object was overwritten in place since
